@@ -73,6 +73,7 @@ def run(chk):
     rule_through(chk)
     rule_total(chk)
     rule_swizzle_value_type(chk)
+    rule_lvalue_destination(chk)
 
 
 def rule_assign(chk):
@@ -404,3 +405,66 @@ def rule_swizzle_value_type(chk):
                "%d slot sequences: a repeated component makes the swizzle an rvalue, otherwise the value category is kept" % n if not bad else
                "%s: %d of %d slot sequences get the wrong value category, e.g. swizzle %s of an %s is %s (must be %s): a repeated component becomes assignable"
                % ((name, len(bad), n) + tuple(bad[0])), where(fn), sample={"fn": name, "sequences": n, "wrong": len(bad)})
+
+
+def rule_lvalue_destination(chk):
+    """out / inout arguments bind by reference: ImplicitConversion::find read as a decision table for an Lvalue
+    destination over all scalar / vector / matrix shapes x {same, different element type}: a conversion is granted only
+    between identical types or between T and vector<T,1>, never across element types or dimensions (those need a
+    temporary, which is an rvalue)."""
+    import c16
+    f = chk.facts
+    ip = I.Interp(f)
+    find = chk.anchor("C03.anchor/ImplicitConversion::find", f.fn("find", TY, self_ty="ImplicitConversion"), "ImplicitConversion::find")
+    if not find:
+        return
+    dm = None
+    for m in F.exprs(find["thir"], "Match"):
+        st = F.strip(m["scrut"]).get("ty", "")
+        if st.endswith("TypeLayer") and any(short(a["adt"]) == "DimensionCast" for a in F.exprs(m, "Adt")):
+            if dm is None or len(list(F.walk(m))) > len(list(F.walk(dm))):
+                dm = m
+    names = {}
+    for b in F.walk(find["thir"]):
+        if b.get("k") == "Bind" and b.get("name") in ("source_l", "dest_l", "source_id", "dest_id"):
+            names.setdefault(b["name"], b["id"])
+    for p_ in find["params"]:
+        pat = p_.get("pat") or {}
+        if pat.get("k") == "Bind" and pat.get("name") in ("source", "dest"):
+            names[pat["name"]] = pat["id"]
+    need = ["source_l", "dest_l", "dest", "source_id", "dest_id"]
+    if not chk.anchor("C03.anchor/find-dimension-table", dm is not None and all(n in names for n in need) and dm, "the dimension-cast match of find and its inputs %s" % need, where(find)):
+        return
+
+    def lay(kind, arg, elem):
+        if kind == "Scalar":
+            return I.Enum("TypeLayer", "Scalar", {"0": I.Enum("ScalarType", "Float32" if elem == 7 else "Int32")})
+        return c16.layer(kind, arg, scalar_id=elem)
+    n = 0
+    bad = []
+    for sk, sa in c16.dims():
+        for dk, da in c16.dims():
+            for same in (True, False):
+                se, de = 7, (7 if same else 8)
+                sid = se if sk == "Scalar" else 50
+                did = de if dk == "Scalar" else (50 if (same and (sk, sa) == (dk, da)) else 51)
+                env = {names["source_l"]: lay(sk, sa, se), names["dest_l"]: lay(dk, da, de),
+                       names["dest"]: I.Enum("ExpressionType", None, {"0": I.Enum("TypeId", None, {"0": 100}), "1": I.Enum("ValueType", "Lvalue")}),
+                       names["source_id"]: I.Enum("TypeId", None, {"0": sid}), names["dest_id"]: I.Enum("TypeId", None, {"0": did})}
+                n += 1
+                try:
+                    r = ip.ev(dm, env)
+                    granted = True
+                except I.ReturnEx:
+                    granted = False
+                except I.Unknown as e:
+                    chk.ob("C03.lvalue-dest/readable", False, "dimension-cast table of find not readable: %s" % e, where(find, dm))
+                    return
+                identical = same and (sk, sa) == (dk, da)
+                wrap = same and {(sk, sa), (dk, da)} == {("Scalar", None), ("Vector", 1)}
+                if granted and not (identical or wrap):
+                    bad.append("%s%s of element type A -> %s%s of element type %s" % (sk, "" if sa is None else sa, dk, "" if da is None else da, "A" if same else "B"))
+    chk.ob("C03.lvalue-dest/no-conversion", not bad,
+           "%d shape pairs: an lvalue destination accepts only the identical type or T <-> vector<T,1>" % n if not bad else
+           "ImplicitConversion::find grants a conversion to an LVALUE destination for %s (%d case(s)): an out/inout parameter then binds to a converted temporary, i.e. an ill-typed call is accepted"
+           % (bad[0], len(bad)), where(find, dm), sample={"cases": n, "granted_wrongly": bad[:6]})
